@@ -3,7 +3,7 @@
 Every check takes concrete inputs, calls the *unmodified* library from /repo, and returns a list of failure strings.
 Nothing here mentions library internals except where the property's own anchor does (private override fields).
 """
-from __future__ import annotations
+
 
 import dataclasses
 import dis
@@ -359,19 +359,25 @@ def _strip_override(cd, t, idx):
 
 
 def c09_canonical(code, dec):
-    """a code object whose tables are in first-use order with no unreferenced entries decodes without any override"""
+    """the same obligation on the canonically re-encoded code object (tables rebuilt in first-use order): in particular a code
+    object whose tables are in first-use order with no unreferenced entries decodes without any position override"""
     cd, err = dec.get(code)
     if err is not None:
         return []
     try:
         canon = cd.normalize().to_code()
-        again = CodeData.from_code(canon)
     except Exception:
-        return []
-    bad = [i for i in flat(again) if getattr(i.arg, "_index_override", None) is not None]
-    out = []
-    if bad:
-        out.append("canonically re-encoded code decodes with %d position overrides, e.g. %r" % (len(bad), bad[0].arg))
-    if again._additional_args:
-        out.append("canonically re-encoded code decodes with additional args %r" % (again._additional_args[:2],))
+        return []      # C03/C05 report encoder failures
+    d2 = Decoded()
+    out = ["canonical re-encoding: " + m for m in c09_overrides(canon, d2, deep=False)]
+    again, err = d2.get(canon)
+    if err is None:
+        order = _first_use_ranks(canon, again)
+        tables = {"name": canon.co_names, "local": canon.co_varnames, "cell": canon.co_cellvars, "const": canon.co_consts}
+        in_order = all(order[t].get(i) == i for t in tables for i in range(len(tables[t])))
+        keys = [repr(oracle.const_repr(c)) for c in canon.co_consts]
+        if in_order and len(set(keys)) == len(keys):
+            bad = [i.arg for i in flat(again) if getattr(i.arg, "_index_override", None) is not None]
+            if bad or again._additional_args:
+                out.append("tables are in first-use order with no unreferenced entries, yet decoding gives overrides %r / additional args %r" % (bad[:2], again._additional_args[:2]))
     return out
